@@ -20,7 +20,7 @@ PLANS = {
     },
     "C03": {
         "level": "other",
-        "sidecars": ["serialise", "params", "driver"],
+        "sidecars": ["serialise", "params", "driver", "grouping"],
         "extras": [{"name": "c03_atom_set_table", "module": "tables.x_checks", "func": "c03_atom_sets", "python": "vt"},
                    {"name": "c07_records", "module": "bounded.c07_records", "func": "run", "python": "venv", "timeout": 3000}],
         "explanation": "Contracts decide the bookkeeping: apply_force_field partitions the model into written / unassigned, "
@@ -70,10 +70,11 @@ PLANS = {
     },
     "C07": {
         "level": "proof",
-        "sidecars": ["pdbread"],
+        "sidecars": ["pdbread", "grouping"],
         "extras": [{"name": "c07_records", "module": "bounded.c07_records", "func": "run", "python": "venv", "timeout": 3000}],
-        "explanation": "ATOM/HETATM column parser proved (layout logic), drop_water proved; reader loop and residue "
-                       "grouping enumerated over record sequences (B)",
+        "explanation": "ATOM/HETATM column parser proved (layout logic), drop_water proved; residue grouping of "
+                       "Biomolecule.__init__ proved by induction over the record list (loop invariant with ghost books: none "
+                       "lost, none twice, residues homogeneous and maximal); reader loop enumerated over record sequences (B)",
     },
     "C09": {
         "level": "proof",
